@@ -660,6 +660,10 @@ def exParseQsB (q : Bytes) : PyM (List (Bytes × List Bytes)) :=
   else .ok []
 def exDecode (b : Bytes) : PyM Str := .ok (b.map fun x => Char.ofNat x.toNat)
 def exUrlQuery (s : Str) : Str := (s.dropWhile (· ≠ '?')).drop 1
+/-- the exception an answer carries, if any -/
+def errorOf {α : Type} : PyM α → Option PyErr
+  | .error e => some e
+  | .ok _ => none
 
 def exReq (q : String) : Req :=
   { path := "/metrics".toList, query := q.toList,
@@ -678,10 +682,17 @@ example :
   have hok : (exReq "a=b").OthersOk := Req.othersOk_of_all _ (by decide +kernel)
   have hurl : exUrlQuery ((exReq "a=b").path ++ '?' :: (exReq "a=b").query) = (exReq "a=b").query := by
     decide +kernel
-  have hdec : exDecode (exUtf8 (exReq "a=b").query) = .ok (exReq "a=b").query := by decide +kernel
+  have hdec : exDecode (exUtf8 (exReq "a=b").query) = .ok (exReq "a=b").query := by
+    have : (exDecode (exUtf8 (exReq "a=b").query)).toOption = some (exReq "a=b").query := by decide +kernel
+    unfold exDecode at this ⊢
+    simpa [Except.toOption] using this
   have hfav : (exReq "a=b").path ≠ "/favicon.ico".toList := by decide +kernel
   have hno : nameKey ∉ (exParseQs (exReq "a=b").query).map Prod.fst := by decide +kernel
-  have hpq : ∃ l, exParseQsB (exUtf8 (exReq "a=b").query) = .ok l := ⟨_, by decide +kernel⟩
+  have hpq : ∃ l, exParseQsB (exUtf8 (exReq "a=b").query) = .ok l := by
+    have h1 : ¬ exUtf8 (exReq "a=b").query = exUtf8 "name[]=a".toList := by decide +kernel
+    have h2 : ¬ exUtf8 (exReq "a=b").query = exUtf8 "lang=%C3%A9".toList := by decide +kernel
+    have h3 : exUtf8 (exReq "a=b").query = exUtf8 "a=b".toList := by decide +kernel
+    exact ⟨_, by unfold exParseQsB; rw [if_neg h1, if_neg h2, if_pos h3]⟩
   exact ⟨(frontends_agree_partial exEnv exParseQs exParseQsB exDecode exUtf8 exUrlQuery (exReq "a=b")
     "accept".toList "accept-encoding".toList han haen hok hurl hdec hfav hno hpq).1, by decide +kernel⟩
 
@@ -701,8 +712,8 @@ app answers 200 with the whole registry and the ASGI app raises `UnicodeEncodeEr
 theorem asgi_raises_on_non_ascii_query :
     (wsgiApp exEnv exParseQs false ((exReq "lang=%C3%A9").environ "GET".toList)).toOption.map (fun r => (r.status, r.body))
         = some (statusOK, (Fmt.om, none, true)) ∧
-    asgiApp exEnv exParseQs exParseQsB exDecode false
-        ((exReq "lang=%C3%A9").scope "accept".toList "accept-encoding".toList exUtf8) = .error .unicodeError := by
+    errorOf (asgiApp exEnv exParseQs exParseQsB exDecode false
+        ((exReq "lang=%C3%A9").scope "accept".toList "accept-encoding".toList exUtf8)) = some .unicodeError := by
   decide +kernel
 
 /-- what asgi.py does today: it raises exactly when `parse_qs(<bytes>)` does, and otherwise — whatever `parse_qs`
